@@ -50,8 +50,12 @@ func sNewFlow(sameTarget bool) *sFlow { return sNewFlowBatch(sameTarget, 1) }
 
 // sNewFlowBatch: the write batcher flushes every `batch` packs (its timer never fires:
 // the scenario is over long before the interval; the clock is frozen under the executor)
-func sNewFlowBatch(sameTarget bool, batch int) *sFlow {
+func sNewFlowBatch(sameTarget bool, batch int) *sFlow { return sNewFlowBatchSize(sameTarget, batch, 0) }
+
+// sNewFlowBatchSize: additionally the batcher's size threshold in KB (0 = default 512 MB)
+func sNewFlowBatchSize(sameTarget bool, batch int, maxKB int) *sFlow {
 	w := sNewWorld()
+	w.cdc.config.Packer.MaxMsgSize = maxKB
 	w.cdc.config.Packer.MaxCount = batch
 	w.cdc.config.Packer.TimerInterval = 3600 * 1000
 	fl := &sFlow{w: w, srv: &CDCServer{api: w.cdc, serverConfig: w.cdc.config}}
@@ -77,6 +81,13 @@ func sNewFlowBatch(sameTarget bool, batch int) *sFlow {
 // sPack: one emitted pack of a (task, collection, source channel) stream. id is the
 // message id of its end position; data packs carry one insert before the closing tick.
 func sPack(task string, collID int64, collName string, id string, endTs uint64, data bool) *coreapi.ReplicateMsg {
+	return sPackRows(task, collID, collName, id, endTs, data, 1)
+}
+
+// sPackRows: a data pack whose insert carries `rows` row ids (a few rows: some dozens of
+// bytes; 2000 rows: far above a 1 KB size threshold of the batcher, natively and in the
+// executor's size estimate alike)
+func sPackRows(task string, collID int64, collName string, id string, endTs uint64, data bool, rows int) *coreapi.ReplicateMsg {
 	pos := &msgpb.MsgPosition{ChannelName: sTgtP, MsgID: []byte(id), Timestamp: endTs}
 	pack := &msgstream.MsgPack{BeginTs: endTs, EndTs: endTs,
 		StartPositions: []*msgpb.MsgPosition{{ChannelName: sTgtP, MsgID: []byte(id + "-start"), Timestamp: endTs}},
@@ -84,7 +95,7 @@ func sPack(task string, collID int64, collName string, id string, endTs uint64, 
 	base := msgstream.BaseMsg{BeginTimestamp: endTs, EndTimestamp: endTs, HashValues: []uint32{0}, MsgPosition: pos}
 	if data {
 		pack.Msgs = append(pack.Msgs, &msgstream.InsertMsg{BaseMsg: base, InsertRequest: &msgpb.InsertRequest{
-			Base: &commonpb.MsgBase{MsgType: commonpb.MsgType_Insert, Timestamp: endTs}, CollectionID: collID, CollectionName: collName, NumRows: 1}})
+			Base: &commonpb.MsgBase{MsgType: commonpb.MsgType_Insert, Timestamp: endTs}, CollectionID: collID, CollectionName: collName, NumRows: uint64(rows), RowIDs: sRowIDs(rows)}})
 	}
 	pack.Msgs = append(pack.Msgs, &msgstream.TimeTickMsg{BaseMsg: base, TimeTickMsg: &msgpb.TimeTickMsg{Base: &commonpb.MsgBase{MsgType: commonpb.MsgType_TimeTick, Timestamp: endTs}}})
 	return &coreapi.ReplicateMsg{TaskID: task, CollectionID: collID, CollectionName: collName, PChannelName: sSrcP, MsgPack: pack}
@@ -123,4 +134,12 @@ func (fl *sFlow) storedPos(task string, collID int64) (string, bool) {
 		}
 	}
 	return "", false
+}
+
+func sRowIDs(n int) []int64 {
+	ids := make([]int64, n)
+	for i := range ids {
+		ids[i] = int64(1)<<40 + int64(i)
+	}
+	return ids
 }
